@@ -254,6 +254,8 @@ def c15(prop, tier):
     r = vlib.tlc_check('MCCoreLimit.tla', limit_cfg('log', 5 if thorough else 4), 'C15-limit', timeout=1200)
     ck.require_model_ok(r, 'CoreLimit: Load(n) as coded vs LimitOK on every log of <= %d entries' % (5 if thorough else 4))
     log('  TLC CoreLimit: %d distinct / %d generated, %.0fs' % (r['distinct'], r['generated'], r['wall']))
+    import sched_family
+    sched_family.loadpath_model(ck, prop)
     sz = dict(n_sim=150 if thorough else 18, depth=16, sim_entries=7 if thorough else 6, n_random=0, random_len=0)
     for stype in (['log', 'kv', 'doc'] if thorough else ['log', 'kv']):
         res = run_core(ck, prop, stype, tier, extra={'load_limits': True}, **sz)
